@@ -641,12 +641,12 @@ pub fn value_of_bin(c: &Cfg, ty: &RootTy, d: &BDoc) -> Option<String> {
 // target types that fit a binary document
 
 fn gen_leaf_ty(rng: &mut Rng, l: &BLeaf) -> Ty {
-    if rng.chance(1, 12) { return [Ty::Bool, Ty::I64, Ty::I32, Ty::U64, Ty::U32, Ty::F64, Ty::F32, Ty::Str, Ty::Any][rng.below(9)].clone(); }
+    if rng.chance(1, 30) { return [Ty::Bool, Ty::I64, Ty::I32, Ty::U64, Ty::U32, Ty::F64, Ty::F32, Ty::Str, Ty::Any][rng.below(9)].clone(); }
     match l {
-        BLeaf::I32(_) => [Ty::I32, Ty::I64, Ty::F64, Ty::Any, Ty::U32, Ty::U64, Ty::F32][rng.below(7)].clone(),
-        BLeaf::I64(_) => [Ty::I64, Ty::I64, Ty::F64, Ty::Any, Ty::I32, Ty::U64, Ty::F32][rng.below(7)].clone(),
+        BLeaf::I32(v) => if *v >= 0 { [Ty::I32, Ty::I64, Ty::F64, Ty::Any, Ty::U32, Ty::U64, Ty::F32][rng.below(7)].clone() } else { [Ty::I32, Ty::I64, Ty::F64, Ty::Any, Ty::I64, Ty::I32, Ty::F32, Ty::U64][{ let k = if rng.chance(1, 8) { 8 } else { 7 }; rng.below(k) }].clone() },
+        BLeaf::I64(_) => [Ty::I64, Ty::I64, Ty::F64, Ty::Any, Ty::F32, Ty::I32, Ty::U64][{ let k = if rng.chance(1, 6) { 7 } else { 5 }; rng.below(k) }].clone(),
         BLeaf::U32(_) => [Ty::U32, Ty::U64, Ty::I64, Ty::Any, Ty::I32, Ty::F64][rng.below(6)].clone(),
-        BLeaf::U64(_) => [Ty::U64, Ty::U64, Ty::I64, Ty::Any, Ty::U32, Ty::F64, Ty::F32][rng.below(7)].clone(),
+        BLeaf::U64(_) => [Ty::U64, Ty::U64, Ty::F64, Ty::Any, Ty::F32, Ty::I64, Ty::U32][{ let k = if rng.chance(1, 6) { 7 } else { 5 }; rng.below(k) }].clone(),
         BLeaf::Bool(_) => [Ty::Bool, Ty::Bool, Ty::Any][rng.below(3)].clone(),
         BLeaf::F32(_) => [Ty::F32, Ty::F64, Ty::Any][rng.below(3)].clone(),
         BLeaf::F64(_) => [Ty::F64, Ty::F32, Ty::Any][rng.below(3)].clone(),
@@ -764,7 +764,9 @@ mod real {
         #[jomini(token = 0x200e)] pub name: String,
         #[jomini(token = 0x2023)] pub flags: Option<Vec<String>>,
     }
-    #[derive(JominiDeserialize, Debug)]
+    // (serde's derive: tyseed's field identifier mirrors serde_derive, which reads an unsigned integer key as a
+    // field index; jomini_derive's identifier visitor has no visit_u64 and answers `invalid type` instead)
+    #[derive(Deserialize, Debug)]
     pub struct JomS { pub id: u32, pub x: f32, pub y: Option<f64>, pub list: Vec<i32> }
 }
 
@@ -849,6 +851,7 @@ pub fn exec(w: &[&str], obs: &mut Obs) -> Option<String> {
             check("stream-tight", run_stream(&c, &ty, &data, need, vec![sched::Step::Repeat(1)]), obs);
             check("stream-mid", run_stream(&c, &ty, &data, need + 5, vec![sched::Step::Repeat(3)]), obs);
             obs.count(&format!("spec:{}", res_kind(&expect)));
+            features(&d.fields, 0, obs);
             match &ty { RootTy::Tok(_) => obs.count("rootty:token-struct"), RootTy::Plain(Ty::Map(_)) => obs.count("rootty:map"), RootTy::Plain(Ty::Struct(_)) => obs.count("rootty:struct"), _ => obs.count("rootty:other") }
             obs.count(match c.strat { FailedResolveStrategy::Error => "strategy:error", FailedResolveStrategy::Stringify => "strategy:stringify", FailedResolveStrategy::Ignore => "strategy:ignore" });
             Some(expect)
@@ -912,7 +915,44 @@ fn gen_bdoc(g: &mut Gen) -> BDoc {
     assert_eq!(render_bdoc(&bd), bytes, "to_bdoc/render_bdoc must agree with docgen::render_binary");
     // extras the shared generator has no notion of: token ids and F64 / I64 in value position
     if g.rng.chance(1, 3) { extras(&mut g.rng, &mut bd.fields); }
+    // integer / date keys make every struct or map request fail on the key (serde field identifiers and
+    // `String` know no signed integer): keep a few, turn the rest into strings or unsigned "index" keys
+    rekey(&mut g.rng, &mut bd.fields);
+    if bd.fields.is_empty() && g.rng.chance(4, 5) { return gen_bdoc(g); }
     bd
+}
+
+fn rekey(rng: &mut Rng, fs: &mut Vec<BField>) {
+    for f in fs.iter_mut() {
+        if let BLeaf::I32(v) = f.key {
+            match rng.below(10) {
+                0 => {}
+                1 | 2 => f.key = BLeaf::U32(rng.below(6) as u32),
+                3 => f.key = BLeaf::U64(rng.below(4) as u64),
+                _ => f.key = BLeaf::Unquoted(v.to_string().into_bytes()),
+            }
+        }
+        match &mut f.val {
+            BNode::Obj(inner) => rekey(rng, inner),
+            BNode::Arr(vs) => { for v in vs.iter_mut() { if let BNode::Obj(inner) = v { rekey(rng, inner); } } }
+            _ => {}
+        }
+    }
+}
+
+fn features(fs: &[BField], depth: usize, obs: &mut Obs) {
+    obs.count(&format!("doc:depth{}", depth.min(5)));
+    for f in fs {
+        if f.ghosts > 0 { obs.count("doc:ghost"); }
+        match &f.key { BLeaf::Id(_) => obs.count("doc:key-id"), BLeaf::Quoted(_) | BLeaf::Unquoted(_) => obs.count("doc:key-string"), _ => obs.count("doc:key-number") }
+        match &f.val {
+            BNode::Leaf(BLeaf::Id(_)) => obs.count("doc:value-id"),
+            BNode::Leaf(_) => obs.count("doc:value-leaf"),
+            BNode::Rgb(_, _, _, a) => obs.count(if a.is_some() { "doc:rgba" } else { "doc:rgb" }),
+            BNode::Obj(inner) => { obs.count("doc:object"); features(inner, depth + 1, obs); }
+            BNode::Arr(vs) => { obs.count(if vs.is_empty() { "doc:empty-container" } else { "doc:array" }); for v in vs { if let BNode::Obj(inner) = v { features(inner, depth + 1, obs); } } }
+        }
+    }
 }
 
 fn extras(rng: &mut Rng, fs: &mut Vec<BField>) {
@@ -1021,11 +1061,13 @@ pub fn gen(g: &mut Gen) {
         for _ in 0..k {
             let c = gen_cfg(&mut g.rng);
             let ty = gen_root_ty(&mut g.rng, &bd);
-            if value_of_bin(&c, &ty, &bd).is_some() {
+            let fits = value_of_bin(&c, &ty, &bd).is_some();
+            if fits {
                 g.emit(format!("bde_spec {} {} {}", show_cfg(&c), show_root(&ty), bds));
                 g.count("wellformed:fitting-type");
             } else { g.count("wellformed:no-claim-type"); }
-            emit_paths(g, &c, &ty, &data, true);
+            let (raw, _) = raw_tokens(&data);
+            emit_paths(g, &c, &ty, &data, fits || slice_token_level(&raw));
         }
         if g.rng.chance(1, 10) { let c = gen_cfg(&mut g.rng); g.emit(format!("x-c04-real {} {}", show_cfg(&c), hex(&data))); }
     }
